@@ -14,6 +14,7 @@ static struct cmd cmds[] = {
   {"c05", cmd_c05},
   {"c12", cmd_c12},
   {"c09", cmd_c09},
+  {"c13", cmd_c13},
   {NULL, NULL}
 };
 int main(int argc, char **argv) {
